@@ -56,21 +56,27 @@ CLAIMED["C09"] = {
   "technique": "Coq proof (reachability closure) + execution of generated module graphs",
 }
 CLAIMED["C01"] = {
-  "text": "Theorem for ALL call-free scalar expressions (any depth and operator mix, all int64 values): the Bash lines the converter emits compute the "
-          "expression's source value in the shell semantics, touching only fresh helpers; literal printing/reading round trip; reference arithmetic is "
-          "int64; script structure theorems. Statement-level behaviour is decided by executing generated programs: implementation script under "
-          "/bin/bash vs the reference semantics, script bytes vs the model.",
-  "ref": "DESIGN.md section 5/C01",
-  "note": "PARTIAL: the simulation of statements/control flow (C01_full_statement) is tested, not proved. Sem/BashSem.v (shell semantics of the scalar line "
-          "templates) and Sem/Src.v are specifications validated against real Bash.",
-  "technique": "Coq proof (expression-level semantic preservation) + execution against a reference interpreter",
+  "text": "Theorems: (1) for ALL call-free scalar expressions (any depth and operator mix, all int64 values) the Bash lines the converter emits compute the "
+          "expression's source value in the shell semantics, touching only fresh helpers; (2) simulation for every terminating program of assignments, "
+          "simultaneous assignments, prints, if/else-if/else, three-clause and condition-only loops, break, continue and call statements at any nesting depth: the "
+          "emitted lines, run by the flat shell machine (Sem/FlatLoop.v), print what the source prints and leave the environment representing the final source "
+          "environment; (3) literal printing/reading round trip, int64 reference arithmetic, script structure. Each simulation theorem has an Example establishing "
+          "all its hypotheses for a concrete program. Everything else (slices, strings as sequences, calls as operands, panic) is decided by executing generated "
+          "programs: implementation script under /bin/bash vs the reference semantics, script bytes vs the model, flat machine vs /bin/bash.",
+  "ref": "DESIGN.md section 10.2 and 5/C01",
+  "note": "PARTIAL: the theorems cover the fragment named above; Sem/BashSem.v, Sem/FlatLoop.v (shell semantics of the emitted line templates) and Sem/Src.v are "
+          "specifications validated against real Bash on every run.",
+  "technique": "Coq proof (semantic preservation by simulation: expressions, statements, conditionals, loops) + execution against a reference interpreter",
 }
 CLAIMED["C02"] = {
-  "text": "Theorems: frame mangling f<k>_<name> is injective and k is fresh per function, globals keep their name, call lines appear in evaluation order. "
-          "Call semantics (binding, returns, multi-values, swaps, globals written in functions) decided by executing generated programs against Sem/Src.v.",
-  "ref": "DESIGN.md section 5/C02",
-  "note": "PARTIAL: no simulation proof for calls. Known defects are listed in known_findings.json.",
-  "technique": "Coq proof (name isolation, call order) + execution against a reference interpreter",
+  "text": "Theorems: frame mangling f<k>_<name> is injective and k is fresh per function, globals keep their name, call lines appear in evaluation order; "
+          "a function definition (body of the C01 fragment + return) refines the source call: arguments bound in order, globals in place, caller's locals untouched "
+          "whatever the names, all returned values in the return registers in order; all functions of a script refine the source calls at every nesting depth "
+          "(the script's own lines as call oracle); call statements x = f(..), x, y = f(..), f(..) and simultaneous assignment x, y = y, x are preserved. "
+          "Calls as operands/arguments, slices by reference, return inside branches are decided by executing generated programs against Sem/Src.v.",
+  "ref": "DESIGN.md section 10.2 and 5/C02",
+  "note": "PARTIAL: see the fragment above. Known defects are listed in known_findings.json.",
+  "technique": "Coq proof (name isolation, call order, simulation of function definitions and call sites) + execution against a reference interpreter",
 }
 CLAIMED["C03"] = {
   "text": "Theorems on the reference semantics: element assignment grows and zero-fills exactly as stated, substrings have Go's meaning; emitted structure. "
